@@ -1,6 +1,7 @@
 package props
 
 import (
+	"bytes"
 	"context"
 	"encoding/json"
 	"errors"
@@ -381,6 +382,65 @@ func C06(r *h.Run) {
 	}
 
 	// ---- Connect end-of-stream variants ----
+	// ---- responses labelled as compressed whose payload is not a valid stream of that
+	// algorithm, on a FRESH client each time (cold pools: the first thing a pooled
+	// decompressor ever sees is the bad input) ----
+	{
+		badPayloads := [][]byte{{0x00}, []byte("not gzip at all"), {0x1f}, {0x1f, 0x8b}, {0x1f, 0x8b, 0x08, 0, 0, 0, 0, 0, 0, 0xff}, {0x1f, 0x8b, 0x08, 0, 0, 0, 0, 0, 0, 0xff, 0xde, 0xad, 0xbe, 0xef}, bytes.Repeat([]byte{0xff}, 40)}
+		for _, algo := range []string{"gzip", "tagA", "rle"} {
+			for pi, pay := range badPayloads {
+				survived := true
+				for _, proto := range []string{"connect", "grpc", "grpcweb"} {
+					for _, kind := range []string{"server", "unary"} {
+						cfg := envCfg{Proto: proto}
+						hdr, term, trailer := responseParts(cfg)
+						status := 200
+						var body []byte
+						unaryConnect := kind == "unary" && proto == "connect"
+						switch {
+						case unaryConnect:
+							hdr = http.Header{"Content-Type": {cfg.contentType(true)}, "Content-Encoding": {algo}}
+							body = pay
+						case proto == "connect":
+							hdr.Set("Connect-Content-Encoding", algo)
+							body = append(h.Frame(1, pay), term...)
+						default:
+							hdr.Set("Grpc-Encoding", algo)
+							body = append(h.Frame(1, pay), term...)
+						}
+						res := doCall(cfg, kind, func() *http.Response {
+							return h.NewResponse(status, hdr.Clone(), h.NewChunkBody([][]byte{body}, h.FinCleanEOF), trailer.Clone())
+						})
+						in := map[string]any{"proto": proto, "kind": kind, "encoding": algo, "payload_hex": h.Hex(pay), "status": status}
+						r.Eval("bad_compressed", fmt.Sprint(algo, pi, proto, kind))
+						if !check("bad_compressed", in, res) {
+							survived = false
+							continue
+						}
+						if res.err == nil && algo == "gzip" {
+							r.Fail(h.Failure{Key: "client/corrupt-compressed-accepted", Family: "bad_compressed", What: "a payload that is not a gzip stream was accepted as a gzip-compressed message", Input: in})
+						}
+					}
+				}
+				if !survived {
+					continue
+				}
+				// unary Connect error responses are decoded on the request goroutine: only
+				// tried for inputs the caller-goroutine paths survived
+				cfg := envCfg{Proto: "connect"}
+				hdr := http.Header{"Content-Type": {"application/json"}, "Content-Encoding": {algo}}
+				res := doCall(cfg, "unary", func() *http.Response {
+					return h.NewResponse(500, hdr.Clone(), h.NewChunkBody([][]byte{pay}, h.FinCleanEOF), nil)
+				})
+				in := map[string]any{"proto": "connect", "kind": "unary", "encoding": algo, "payload_hex": h.Hex(pay), "status": 500}
+				r.Eval("bad_compressed", fmt.Sprint(algo, pi, "connect-unary-500"))
+				if check("bad_compressed", in, res) && res.err == nil {
+					r.Fail(h.Failure{Key: "client/error-status-accepted", Family: "bad_compressed", What: "HTTP 500 reported as success", Input: in})
+				}
+			}
+		}
+	}
+
 	// ---- Grpc-Message values, well-formed or not, in trailers first (a panic there is
 	// recovered on the caller's goroutine), then in headers (decoded on the request
 	// goroutine: only tried for values the trailer placement survived) ----
